@@ -14,7 +14,8 @@ ENUM_DEF = {1: "one", 2: ("two", "name_warn"), 30: "thirty", 400: ("four hundred
             5: ("five", "WARN"), 6: ("six", "no_such_look")}
 ENUM_MAX_VAL_LEN = 3
 TITLES_POOL = {
-    'a': ["a", "Alpha", "Title\nA\nx", ["A1", 22]],
+    # (the items of a title list may be objects of any simple kind: numbers, None, a flag)
+    'a': ["a", "Alpha", "Title\nA\nx", ["A1", 22], [None], [False, "x"], [0.0, None]],
     # (a title may read like the NAME of another field)
     'b': ["b", "B|col", "long title of b", "two\nlines", "a"],
     'st': ["st", "status"],
@@ -110,7 +111,9 @@ def gen_records(rng, counts=(0, 1, 2, 3, 5, 8, 13), sgr_data=False):
             continue
         recs.append((gen_val(rng, sgr_data), rng.choice(b_pool) if same_b else gen_val(rng, sgr_data),
                      # (the enum field also meets strings that READ like its values: "1", "None")
-                     rng.choice([1, 2, 30, 400, 4, 55555, None, "x", 1, 2, None, "1", "2", "None", 5, 6]), gen_val(rng, sgr_data)))
+                     # (... and values that are no members of the enum and falsy: 0, 0.0, the empty text)
+                     rng.choice([1, 2, 30, 400, 4, 55555, None, "x", 1, 2, None, "1", "2", "None", 5, 6, 0, 0.0, ""]),
+                     gen_val(rng, sgr_data)))
     return recs
 
 
@@ -277,10 +280,12 @@ def check_layout(lines, recs, cols, limits, header, footer, titles, first_print=
             if cells is None:
                 P("title-separators-not-under-plus", line=line)
                 continue
-            for cell, tls, w in zip(cells, tl_per_col, widths):
+            for cell, tls, w, c in zip(cells, tl_per_col, widths, cols):
                 text = tls[j] if j < len(tls) else ""
                 if not cell_ok(cell, text, w):
                     P("title-cell-wrong", cell=cell, title=text, width=w)
+                elif first_print and len(text) > w and w < c['hi']:
+                    P("title-cut-although-the-column-may-be-wider", cell=cell, title=text, width=w)
     # ---- body
     body = lines[b1 + 1:b2]
     brk = [c for c in cols if c['brk']]
